@@ -883,7 +883,7 @@ func TestVerifC20Layering(t *testing.T) {
 			defaults[sec.name] = c20FlattenAny(sec.def())
 		}
 	}
-	kit.Run(t, kit.Config{Property: "C20", Unit: "layering", Quick: 3000, Thorough: 40000,
+	kit.Run(t, kit.Config{Property: "C20", Unit: "layering", Quick: 3000, Thorough: 160000,
 		Rule: "one case = 2-6 ConfigMap updates through the real syncConfig, after each update getNodeSLOSpec for 3-5 nodes; per update each of the five sections is independently absent / {} / partial / full / malformed (truncated, wrong type, garbage) / unchanged text; 0-4 node entries per section with selectors over a 3x3 label universe (nil, empty, matchLabels, In/NotIn/Exists/DoesNotExist, 25% literal duplicates of an earlier entry's selector); typed strategies with a random subset of leaves, per-layer sentinel bands; distinct = (section, state, previous state, #entries, #matching entries class, sources of the expected leaves); non-trivial = the case had a malformed-after-good transition AND a node matched by >= 2 entries that differ"},
 		func(c *kit.Case) {
 			r := c.R
